@@ -11,10 +11,14 @@ C35 (tags `ty=<type> members=<k>`; formats in `Driver/Wire.lean`)
 C39 (tags `kind=q|w|j min=<m> max=<M>`; one case = one run of the state machine)
   batch <key>:o[<val>] <key>:e<err> ..  -> `q=<emitted in this tick> e=<errors>`
   tick r=<k>:<v>,.. m=<k>:<m>,..        -> `j=<k>:<m>:<v>,..`
+C41 (no tags needed)
+  ir <id>:<kind>:<loc>:<in>,<in>;..  -> accept | reject-cycle     (kinds s o t d c<k> r S C<k> N)
+  edges                              -> predicted `<src>><dst>[d]` of the last `ir`, sorted
 Anything else -> bad-op.
 -/
 import HvNet.Driver.Wire
 import HvNet.Model.Quorum
+import HvNet.Model.Emit
 open HvNet HvNet.Wire
 
 structure St where
@@ -25,6 +29,7 @@ structure St where
   max : Nat := 0
   qst : Quorum.St Nat Nat Nat := {}
   rem : List (Nat × Nat) := []
+  ir : Emit.IR := []
 
 /-! ### C39 -/
 open Quorum in
@@ -132,6 +137,47 @@ def c35Op (st : St) (cmd : List String) : Option String :=
     | _, _ => none
   | _ => none
 
+/-! ### C41 -/
+def parseKind (s : String) : Option Emit.Kind :=
+  match s with
+  | "s" => some .src
+  | "o" => some .op
+  | "t" => some .tee
+  | "d" => some .defer
+  | "r" => some .netRecv
+  | "S" => some .sink
+  | "N" => some .netSend
+  | _ =>
+    if s.startsWith "c" then ((s.drop 1).toString.toNat?).map Emit.Kind.cycSource
+    else if s.startsWith "C" then ((s.drop 1).toString.toNat?).map Emit.Kind.cycSink
+    else none
+
+def parseNode (idx : Nat) (s : String) : Option Emit.Node :=
+  match s.splitOn ":" with
+  | [i, k, l, ins] =>
+    match i.toNat?, parseKind k with
+    | some i, some k =>
+      if i != idx then none else
+      let loc := ((l.drop 1).toString.toNat?).getD 0
+      let inputs := if ins.isEmpty then some [] else (ins.splitOn ",").mapM String.toNat?
+      inputs.map fun inputs => { kind := k, loc := loc, inputs := inputs }
+    | _, _ => none
+  | _ => none
+
+def parseIR (s : String) : Option Emit.IR :=
+  let parts := s.splitOn ";"
+  (parts.zipIdx.mapM fun (p, i) => parseNode i p)
+
+def c41Op (st : St) (cmd : List String) : Option (St × String) :=
+  match cmd with
+  | ["ir", s] =>
+    (parseIR s).map fun ir => ({ st with ir := ir }, if Emit.accepts ir then "accept" else "reject-cycle")
+  | ["edges"] =>
+    let es := (Emit.predictedEdges st.ir).map fun (a, b, d) => s!"{a}>{b}" ++ (if d then "d" else "")
+    let es := (es.mergeSort (fun x y => decide (x ≤ y))).eraseDups
+    some (st, if es.isEmpty then "-" else ",".intercalate es)
+  | _ => none
+
 def step (st : St) (line : String) : St × String :=
   let l := line.trimAscii.toString
   match l.splitOn " " with
@@ -144,9 +190,12 @@ def step (st : St) (line : String) : St × String :=
     ({ ty, members, kind, min, max }, l)
   | cmd =>
     if st.kind == "" then
-      match c35Op st cmd with
-      | some out => (st, out)
-      | none => (st, "bad-op")
+      match c41Op st cmd with
+      | some (st', out) => (st', out)
+      | none =>
+        match c35Op st cmd with
+        | some out => (st, out)
+        | none => (st, "bad-op")
     else
       match c39Op st cmd with
       | some (st', out) => (st', out)
